@@ -37,10 +37,13 @@ def main() -> int:
         sys.stdout.write(r.stderr)
         print("SELFTEST FAILED: reference modules")
         return 1
-    sys.path.insert(0, "/repo")
+    import os
+
+    repo = os.environ.get("VERIF_REPO", "/repo")
+    sys.path.insert(0, repo)
     import aiohomekit
 
-    if not str(Path(aiohomekit.__file__).resolve()).startswith("/repo/"):
+    if not str(Path(aiohomekit.__file__).resolve()).startswith(repo.rstrip("/") + "/"):
         print("SELFTEST FAILED: aiohomekit is not imported from /repo:", aiohomekit.__file__)
         return 1
     for m in pkgutil.iter_modules([str(ROOT / "vf" / "props")]):
